@@ -192,6 +192,16 @@ func runC07(c *fw.Case) {
 			filesBefore := countWalFiles(dir)
 			var err error
 			if direct && x < 4 {
+				// the direct-I/O writer refuses synchronous appends (documented): a refused append must not reach the log
+				if r.Intn(3) == 0 {
+					if e := w.AppendSync(rec); e == nil {
+						c.Violate("wal/direct-io/sync-append-accepted", "%s: AppendSync on a direct-I/O log returned nil\n%v", cfg, prog)
+						return
+					}
+					prog = append(prog, fmt.Sprintf("AppendSync(%s)->refused", fw.Hex(rec)))
+					c.Obs("refused_sync_appends_on_direct_io", 1)
+					continue
+				}
 				x = 4
 			}
 			if x < 4 {
